@@ -601,6 +601,7 @@ out:
 
 /* ------------------------------------------------------------------ C19 */
 static double win_sq(int i,int n){ double s=sin(((double)i+0.5)/(2.0*n)*M_PI); double w=sin(0.5*M_PI*s*s); return w*w; }
+static long hist_since_lap;   /* samples read since the last lapped seek of the replayed history (huge if none, or a plain seek since) */
 static int hist_lap_dirty;   /* the last replayed history ended within a few thousand samples of a lapped seek with no plain seek since: what the handle
                                 delivers next (and its hidden tail near a link end) may still be the earlier cross-fade, not the stream's own audio */
 static int replay_history(OggVorbis_File *vf,uint64_t hseed,int hs,const refdec_t *ref,size_t nbytes){
@@ -617,7 +618,7 @@ static int replay_history(OggVorbis_File *vf,uint64_t hseed,int hs,const refdec_
     else { int k=(int)rng_range(&r,1,4); for(int j=0;j<k;j++){ long g=ov_read_float(vf,&pcm,(int)rng_range(&r,1,1500),&bs); if(g<0) return -6; if(since<(1<<29)) since+=g; } }
   }
   if(rng_chance(&r,0.1)){ float **pcm; int bs; int g=0; long q; while((q=ov_read_float(vf,&pcm,4096,&bs))>0 && g++<100000) if(since<(1<<29)) since+=q; }
-  hist_lap_dirty= since<8192;
+  hist_since_lap=since; hist_lap_dirty= since<8192;
   return 0;
 }
 /* Independent derivation of "the audio that would have been read next" near the end of a link (full rate only): the link's
@@ -775,6 +776,8 @@ static void case_c19(const drvargs_t *a,long id){
       }
     }
     /* near the end of the old link the continuation is also derived without vorbisfile and without the state lapout is in there */
+    /* a lapped seek splices at most half a short block (of the larger of the file's short blocks) after its target; once that much has been read the handle delivers the stream's own audio again */
+    { long mx=0; for(int k=0;k<F.nlinks;k++) if(F.l[k].bs0/2>mx) mx=F.l[k].bs0/2; hist_lap_dirty= hist_since_lap<mx; }
     if(have_old && old_unambiguous && old_tail && !hs && ch_old<=256 && c_lap<=0) res_count("link_end_continuation_silent_no_block_decoded",1);
     else if(have_old && old_unambiguous && old_tail && !hs && ch_old<=256 && hist_lap_dirty) res_count("link_end_continuation_not_judged_after_recent_lapped_seek",1);
     else if(have_old && old_unambiguous && old_tail && !hs && ch_old<=256){
